@@ -102,7 +102,8 @@ class Check(AddCheck):
             ns = rng.random() < 0.4              # vendor XML in namespaces of its own inside what is carried
             its = gens.ITEM_IDS[:2]
             itgt = rng.choice(its + [None])
-            new_s = [rich_story(rng, 'N%d' % j, rng.randrange(0, depth), ns) for j in range(rng.randrange(0, 4))]
+            # a carried story may bear the ID of a story that is already there (inserts skip it, replaces and appends do not)
+            new_s = [rich_story(rng, rng.choice(sids) if rng.random() < 0.15 else 'N%d' % j, rng.randrange(0, depth), ns) for j in range(rng.randrange(0, 4))]
             new_i = [rich_item(rng, 'n%d' % j, rng.randrange(0, depth), ns) for j in range(rng.randrange(0, 4))]
             mid = 40
             docs = [
